@@ -544,7 +544,7 @@ def wsdl_cfgs(q):
         # back (C04 counts that under its reference-struct exclusion), and here it would fail every response
         ("wsdl", gen.cfg_with(files=(1, 3), wsdl=True, quarantine=q, complex_per_file=(0, 2), simple_per_file=(0, 2), elements_per_file=(0, 1),
                               attr_named_simple=False, avoid_nested_same_name=True, p_inline_schemas=0.4)),
-        ("wsdl-keywords", gen.cfg_with(files=(1, 2), wsdl=True, quarantine=q, keyword_rate=0.3, complex_per_file=(0, 2), simple_per_file=(0, 2),
+        ("wsdl-keywords", gen.cfg_with(files=(1, 2), wsdl=True, p_inline_schemas=0.3, quarantine=q, keyword_rate=0.3, complex_per_file=(0, 2), simple_per_file=(0, 2),
                                        elements_per_file=(0, 1), attr_named_simple=False, avoid_nested_same_name=True)),
         ("wsdl-headers", gen.cfg_with(files=(1, 3), wsdl=True, quarantine=q, headers=(1, 3), p_parts_attr=0.3, complex_per_file=(0, 1), p_part_element_cross=0.5, p_inline_schemas=0.4,
                                       simple_per_file=(0, 2), elements_per_file=(0, 1), ops=(1, 3), attr_named_simple=False, avoid_nested_same_name=True)),
@@ -583,14 +583,14 @@ def profiles(q):
     d = dict(core_cfgs(q))
     d.update(dict(wsdl_cfgs(q)))
     d.update({
-        "restr": gen.cfg_with(files=(1, 3), wsdl=True, quarantine=q, simple_per_file=(3, 6), complex_per_file=(1, 3), avoid_nested_same_name=True,
+        "restr": gen.cfg_with(files=(1, 3), wsdl=True, p_inline_schemas=0.3, quarantine=q, simple_per_file=(3, 6), complex_per_file=(1, 3), avoid_nested_same_name=True,
                               elements_per_file=(0, 1), p_simple_derived=0.5, headers=(0, 2), ops=(1, 3), p_oneway=0.3),
         "ext": gen.cfg_with(files=(1, 3), quarantine=q, p_ext=0.75, complex_per_file=(3, 6), simple_per_file=(0, 2),
                             elements_per_file=(0, 2), p_cross_file=0.6, own_ns_default=0.3),
         "ext-keywords": gen.cfg_with(files=(2, 3), quarantine=q, p_ext=0.75, complex_per_file=(3, 5), keyword_rate=0.25),
         "names": gen.cfg_with(files=(2, 4), quarantine=q, name_pool=pool, max_words=2, keyword_rate=0.0, reuse_names=True,
                               p_ref=0.45, p_ext=0.45, p_cross_file=0.7, elements_per_file=(1, 3), complex_per_file=(2, 4)),
-        "names-wsdl": gen.cfg_with(files=(2, 3), wsdl=True, quarantine=q, name_pool=pool + ["part", "body"], max_words=2, keyword_rate=0.0,
+        "names-wsdl": gen.cfg_with(files=(2, 3), wsdl=True, p_inline_schemas=0.3, quarantine=q, name_pool=pool + ["part", "body"], max_words=2, keyword_rate=0.0,
                                    reuse_names=True, p_ref=0.4, p_cross_file=0.7, attr_named_simple=False, avoid_nested_same_name=True, ops=(1, 3), p_part_element_cross=0.6,
                                    complex_per_file=(1, 2), simple_per_file=(0, 2), elements_per_file=(1, 2), p_part_name_differs=0.3),
         # a file and its twin (same layout and local names, other namespace and members), both read in one run
@@ -600,7 +600,7 @@ def profiles(q):
                                  elements_per_file=(0, 2), p_cross_file=0.15),
         "ns": gen.cfg_with(files=(3, 4), quarantine=q, adversarial_uris=True, nested_xmlns=0.5, p_prefix_clash=0.7, complex_per_file=(1, 2),
                            simple_per_file=(1, 2), elements_per_file=(0, 1), p_cross_file=0.8, default_ns_own=0.4),
-        "ns-wsdl": gen.cfg_with(files=(2, 4), wsdl=True, quarantine=q, adversarial_uris=True, nested_xmlns=0.4, complex_per_file=(0, 1),
+        "ns-wsdl": gen.cfg_with(files=(2, 4), wsdl=True, p_inline_schemas=0.3, quarantine=q, adversarial_uris=True, nested_xmlns=0.4, complex_per_file=(0, 1),
                                 simple_per_file=(0, 1), elements_per_file=(0, 1), ops=(1, 2), attr_named_simple=False, avoid_nested_same_name=True, p_cross_file=0.8),
     })
     return d
